@@ -214,6 +214,15 @@ theorem v1_write_spec (c : Crcs) (h1 : ∀ b, c.ieee b < M32) (h2 : ∀ b, c.cas
     decodeSet c (writeV1 c.ieee attrs now 0 recs) = some ((msgsOfV1 attrs now 0 recs).map Entry.msg) :=
   writeV1_spec c h1 h2 attrs now recs hwf
 
+/-- known finding C05-D32, at model level: the format-1 writer never looks at the headers — records that differ only in
+their headers produce the same bytes (so the headers cannot reach a consumer; the code returns no error either) -/
+theorem v1_drops_headers (crc : Bytes → Nat) (attrs now : Int) : ∀ (rs : List PRec) (i : Nat),
+    writeV1 crc attrs now i rs = writeV1 crc attrs now i (rs.map fun r => { r with headers := [] })
+  | [], _ => rfl
+  | r :: rs, i => by
+    simp only [writeV1, List.map_cons, v1_drops_headers crc attrs now rs (i + 1)]
+    rfl
+
 /-! ## Part F — the library's DECODER on the Client.Fetch path (Model/RecordReader) -/
 
 open Model.RecordReader in
@@ -351,13 +360,13 @@ batches) applied to a complete valid response returns exactly the records of the
 fetch offset — keys, values, headers, timestamps (the append time for LogAppendTime batches), absolute offsets, order —
 EXACTLY: since fixes 4db07b4 / a925b8a / 795ac84 / 314fa1c null and empty are told apart on this path too, both paths
 apply the timestamp type and both pass over control batches (before, the statement held only up to null ≈ empty and
-for sets without control batches); and that is, unconditionally, what the Client.Fetch model returns from the same bytes.  (Wrappers carry a null key, as brokers write them: the Conn code skips 4 bytes there.) -/
+for sets without control batches; and since fix C05-D31 a wrapper message may carry a key — the hypothesis `hkey`
+"wrappers have a null key" is gone); and that is, unconditionally, what the Client.Fetch model returns from the same bytes. -/
 theorem decoders_agree_content (c : Crcs) (h1 : ∀ b, c.ieee b < M32) (h2 : ∀ b, c.castagnoli b < M32)
-    (dec : Int → Bytes → Option Bytes) (es : List Entry) (gs : List (Bool × List Rec)) (h : AllGood c dec es gs)
-    (hkey : ∀ m, Entry.msg m ∈ es → codecOf m.attributes ≠ 0 → m.key = none) (o : Int) :
+    (dec : Int → Bytes → Option Bytes) (es : List Entry) (gs : List (Bool × List Rec)) (h : AllGood c dec es gs) (o : Int) :
     connFetch dec o (encSet c es) = some ((surfaced gs).filter (fun r => o ≤ r.offset)) ∧
     connFetch dec o (encSet c es) = some ((clientFetch c dec (encSet c es)).filter (fun r => o ≤ r.offset)) := by
-  have hconn := connReadSet_encSet c h1 h2 dec es gs h hkey (encSet c es).length (encSet_length_ge c es)
+  have hconn := connReadSet_encSet c h1 h2 dec es gs h (encSet c es).length (encSet_length_ge c es)
   have hfirst : connFetch dec o (encSet c es) = some ((surfaced gs).filter (fun r => o ≤ r.offset)) := by
     simp only [connFetch, hconn, Option.map_some]
   exact ⟨hfirst, by rw [hfirst, (decoders_agree_client c h1 h2 dec es gs h).2]⟩
@@ -677,6 +686,23 @@ example : ∃ s, hrun hinit [.allocPage, .write 0 [1, 2, 3], .refTo 0, .unrefBuf
     .reusePage 0, .write 1 [7, 7]] = some s ∧ 0 ∈ s.ps.held ∧ s.writer 0 = false ∧ s.content 0 = [1, 2, 3] ∧
     s.content 1 = [7, 7] := by
   refine ⟨_, rfl, ?_, ?_, ?_, ?_⟩ <;> decide
+
+open Model.Pages in
+/-- the same while the page's buffer is STILL decoding (`readMessage` of a v0/v1 set appends the next message's key and
+value to the buffer whose earlier ranges are already handed out): as long as nobody overwrites the page (`noOverwrite`:
+appends at its end are allowed — the only stores a decode buffer performs) and the holder keeps its count, the bytes a
+reference reads are a prefix of the page's content at every later time: they are never changed, only followed. -/
+theorem held_bytes_only_grow (pre es : List HEvent) (s : HState) (h : hrun hinit pre = some s) (p : Nat)
+    (hp : p ∈ s.ps.held) (hno : noOverwrite p es = true) :
+    ∀ s', hrun s es = some s' → (∀ k, k ≤ es.length → ∀ sk, hrun s (es.take k) = some sk → p ∈ sk.ps.held) →
+      s.content p <+: s'.content p :=
+  heap_grow_aux es s (hinv_run pre hinit s inv_init h) p hp hno
+
+open Model.Pages in
+/-- non-vacuity: key bytes referenced, then the same buffer appends the next message, another decode recycles a page -/
+example : ∃ s, hrun hinit [.allocPage, .append 0 [1, 2], .refTo 0, .append 0 [3, 4, 5], .allocPage, .unrefBuf 1,
+    .reusePage 0, .write 1 [7]] = some s ∧ 0 ∈ s.ps.held ∧ s.content 0 = [1, 2, 3, 4, 5] := by
+  refine ⟨_, rfl, ?_, ?_⟩ <;> decide
 
 /-! ### Timestamp type (attributes bit 3) -/
 
